@@ -356,6 +356,13 @@ type objCtor struct {
 	sameKey bool // the result is the same key as the pool key (the primitive probe applies)
 }
 
+func kidIf(custom bool, kid string) string {
+	if custom {
+		return kid
+	}
+	return ""
+}
+
 func sdOf(b []byte) secretdata.Bytes { return secretdata.NewBytesFromData(b, tok) }
 
 // ctorsFor lists the byte-taking constructors that rebuild k (constructors taking secretdata.Bytes
@@ -609,14 +616,14 @@ func ctorsFor(k key.Key) []objCtor {
 		par := x.Parameters().(*jwthmac.Parameters)
 		custom := has && par.KIDStrategy() == jwthmac.CustomKID
 		return []objCtor{one("jwt/jwthmac.NewKey"+sdName, "KeyBytes", x.KeyBytes().Data(tok), func(b []byte) (any, error) {
-			return jwthmac.NewKey(jwthmac.KeyOpts{KeyBytes: sdOf(b), IDRequirement: id, CustomKID: kid, HasCustomKID: custom, Parameters: par})
+			return jwthmac.NewKey(jwthmac.KeyOpts{KeyBytes: sdOf(b), IDRequirement: id, CustomKID: kidIf(custom, kid), HasCustomKID: custom, Parameters: par})
 		})}
 	case *jwtecdsa.PublicKey:
 		kid, has := x.KID()
 		par := x.Parameters().(*jwtecdsa.Parameters)
 		custom := has && par.KIDStrategy() == jwtecdsa.CustomKID
 		return []objCtor{one("jwt/jwtecdsa.NewPublicKey", "PublicPoint", x.PublicPoint(), func(b []byte) (any, error) {
-			return jwtecdsa.NewPublicKey(jwtecdsa.PublicKeyOpts{PublicPoint: b, IDRequirement: id, CustomKID: kid, HasCustomKID: custom, Parameters: par})
+			return jwtecdsa.NewPublicKey(jwtecdsa.PublicKeyOpts{PublicPoint: b, IDRequirement: id, CustomKID: kidIf(custom, kid), HasCustomKID: custom, Parameters: par})
 		})}
 	case *jwtecdsa.PrivateKey:
 		pub, _ := x.PublicKey()
@@ -629,7 +636,7 @@ func ctorsFor(k key.Key) []objCtor {
 				return jwtecdsa.NewPrivateKeyFromPublicKey(sdOf(b), pp)
 			}),
 			one("jwt/jwtecdsa.NewPrivateKeyFromPublicKey(NewPublicKey(PublicPoint))", "PublicPoint", pp.PublicPoint(), func(b []byte) (any, error) {
-				p, err := jwtecdsa.NewPublicKey(jwtecdsa.PublicKeyOpts{PublicPoint: b, IDRequirement: id, CustomKID: kid, HasCustomKID: custom, Parameters: par})
+				p, err := jwtecdsa.NewPublicKey(jwtecdsa.PublicKeyOpts{PublicPoint: b, IDRequirement: id, CustomKID: kidIf(custom, kid), HasCustomKID: custom, Parameters: par})
 				if err != nil {
 					return nil, err
 				}
@@ -641,7 +648,7 @@ func ctorsFor(k key.Key) []objCtor {
 		par := x.Parameters().(*jwtmldsa.Parameters)
 		custom := has && par.KIDStrategy() == jwtmldsa.CustomKID
 		return []objCtor{one("jwt/jwtmldsa.NewPublicKey", "KeyBytes", x.KeyBytes(), func(b []byte) (any, error) {
-			return jwtmldsa.NewPublicKey(jwtmldsa.PublicKeyOpts{KeyBytes: b, IDRequirement: id, CustomKID: kid, HasCustomKID: custom, Parameters: par})
+			return jwtmldsa.NewPublicKey(jwtmldsa.PublicKeyOpts{KeyBytes: b, IDRequirement: id, CustomKID: kidIf(custom, kid), HasCustomKID: custom, Parameters: par})
 		})}
 	case *jwtmldsa.PrivateKey:
 		pub, _ := x.PublicKey()
@@ -653,7 +660,7 @@ func ctorsFor(k key.Key) []objCtor {
 		par := x.Parameters().(*jwtrsassapkcs1.Parameters)
 		custom := has && par.KIDStrategy() == jwtrsassapkcs1.CustomKID
 		return []objCtor{one("jwt/jwtrsassapkcs1.NewPublicKey", "Modulus", x.Modulus(), func(b []byte) (any, error) {
-			return jwtrsassapkcs1.NewPublicKey(jwtrsassapkcs1.PublicKeyOpts{Modulus: b, IDRequirement: id, CustomKID: kid, HasCustomKID: custom, Parameters: par})
+			return jwtrsassapkcs1.NewPublicKey(jwtrsassapkcs1.PublicKeyOpts{Modulus: b, IDRequirement: id, CustomKID: kidIf(custom, kid), HasCustomKID: custom, Parameters: par})
 		})}
 	case *jwtrsassapkcs1.PrivateKey:
 		pub, _ := x.PublicKey()
@@ -667,7 +674,7 @@ func ctorsFor(k key.Key) []objCtor {
 		par := x.Parameters().(*jwtrsassapss.Parameters)
 		custom := has && par.KIDStrategy() == jwtrsassapss.CustomKID
 		return []objCtor{one("jwt/jwtrsassapss.NewPublicKey", "Modulus", x.Modulus(), func(b []byte) (any, error) {
-			return jwtrsassapss.NewPublicKey(jwtrsassapss.PublicKeyOpts{Modulus: b, IDRequirement: id, CustomKID: kid, HasCustomKID: custom, Parameters: par})
+			return jwtrsassapss.NewPublicKey(jwtrsassapss.PublicKeyOpts{Modulus: b, IDRequirement: id, CustomKID: kidIf(custom, kid), HasCustomKID: custom, Parameters: par})
 		})}
 	case *jwtrsassapss.PrivateKey:
 		pub, _ := x.PublicKey()
